@@ -50,10 +50,10 @@ func main() {
 	run.Assume("virtual clock: every reading is 1 microsecond after the previous one (coarse-clock collisions are not explored)",
 		"cooperative scheduler; every Conn.Write is a scheduling point so a too-short critical section shows up as interleaved frames or an id/seq inversion")
 	D, E := 2, 1
-	budget := 100 * time.Second
+	budget := 5 * time.Minute
 	if run.Thorough() {
 		D, E = 3, 2
-		budget = 15 * time.Minute
+		budget = 45 * time.Minute
 	}
 	run.Set("delay_bound", D)
 	run.Set("server_deviation_bound", E)
